@@ -951,3 +951,170 @@ def oracle_c08(tables, seed, tier, deep):
 
 ORACLES["C06"] = oracle_c06
 ORACLES["C08"] = oracle_c08
+
+
+# ------------------------------------------------------------------------------------------- C09 / C10 (encryption)
+
+HARNESS_KEY = bytes([(i * 7 + 3) % 256 for i in range(64)])
+
+
+def nasty_strings(rng, n):
+    base = ["", " ", "a", "REDACTED", "QUJD", "AAAA", "{\"a\":1}", "null", "x" * 8191, "é" * 700, "\U0001F600\U0001F4A9", "中文字符", "\x00\x01\x1f\x7f", "line1\nline2\r\n\ttab", "\"quoted\" \\back\\", "<script>&amp;</script>",
+            "\u2028\u2029", "a@b.co", "$notfirst"[1:] + "$x", "A" * 64, "=" * 5, "-----BEGIN", "\ufffd", "\ud7ff\ue000", "0", "-1e5"]
+    out = list(base)
+    alph = "abcXYZ019 _-+/=\"\\{}[]:,é中\U0001F600\x07"
+    while len(out) < n:
+        out.append("".join(rng.choice(alph) for _ in range(rng.choice([1, 2, 5, 17, 64, 300]))))
+    return out[:n]
+
+
+def oracle_c09(tables, seed, tier, deep):
+    import tempfile, shutil
+    big = tier == "thorough" or deep
+    rng = SplitMix(seed ^ 0x9)
+    strs = [s for s in nasty_strings(rng, 160 if big else 40) if not s.startswith("$")]
+    viol = []
+    dist = collections.Counter()
+    n = 0
+    work = tempfile.mkdtemp(prefix="verif_c09_")
+    try:
+        # end to end through the real CLI: redact --encrypt, then decrypt every ciphertext
+        line = Obj([("c", "COMMAND"), ("msg", "Slow query"), ("attr", Obj([("ns", "d.c"), ("command", Obj([("find", "c"), ("filter", Obj([("f%d" % i, s) for i, s in enumerate(strs)]))]))]))])
+        inp = os.path.join(work, "in.log")
+        open(inp, "w", encoding="utf-8").write(to_json(line) + "\n")
+        key = os.path.join(work, "k.key")
+        outp = os.path.join(work, "out.log")
+        rc, so, se = run_cli(["redact", inp, "-o", outp, "--encrypt", "--encryptionKeyFile", key], cwd=work)
+        n += 1
+        if rc != 0:
+            viol.append({"site": "cli:redact-encrypt-failed", "detail": se[-300:].decode("utf-8", "replace"), "input": to_json(line)[:300]})
+        else:
+            o = parse_json(open(outp, encoding="utf-8").read())
+            filt = get_path(o, ("attr", "command", "filter"))
+            cts = []
+            for i, s in enumerate(strs):
+                ct = filt.get("f%d" % i)
+                cts.append(ct)
+                rc, so, se = run_cli(["decrypt", ct, "--decryptionKeyFile", key], cwd=work)
+                n += 1
+                want = ("Raw value: " + s + "\n").encode("utf-8")
+                dist["roundtrip"] += 1
+                if rc != 0 or not so.endswith(want):
+                    viol.append({"site": "roundtrip", "detail": "decrypt of the emitted leaf gave exit %d, stdout tail %r, expected %r" % (rc, so[-80:], want[-80:]), "input": s[:200]})
+            # tampering: single-byte corruptions and truncations of ciphertexts, wrong key
+            key2 = os.path.join(work, "k2.key")
+            open(key2, "w").write(base64.b64encode(bytes(rng.below(256) for _ in range(64))).decode())
+            for ct, s in list(zip(cts, strs))[: (40 if big else 8)]:
+                raw = base64.b64decode(ct)
+                muts = []
+                for _ in range(12 if big else 5):
+                    b = bytearray(raw)
+                    b[rng.below(len(b))] ^= 1 << rng.below(8)
+                    muts.append(bytes(b))
+                muts += [raw[:-1], raw[1:], raw[: len(raw) // 2], raw + b"\x00"]
+                for mct in muts:
+                    rc, so, se = run_cli(["decrypt", base64.b64encode(mct).decode(), "--decryptionKeyFile", key], cwd=work)
+                    n += 1
+                    dist["tamper:%d" % (rc != 0)] += 1
+                    if rc == 0:
+                        viol.append({"site": "tamper:accepted", "detail": "altered ciphertext accepted: %r" % so[-80:], "input": s[:100]})
+                rc, so, se = run_cli(["decrypt", ct, "--decryptionKeyFile", key2], cwd=work)
+                n += 1
+                dist["wrongkey:%d" % (rc != 0)] += 1
+                if rc == 0:
+                    viol.append({"site": "wrongkey:accepted", "detail": "ciphertext accepted under a different key: %r" % so[-80:], "input": s[:100]})
+    finally:
+        shutil.rmtree(work, ignore_errors=True)
+    # API level, more volume
+    more = nasty_strings(SplitMix(seed ^ 0x99), 2000 if big else 300)
+    res = go_exec([(str(i), ["encrt", hx(HARNESS_KEY), hx(s.encode("utf-8", "surrogatepass"))]) for i, s in enumerate(more)])
+    for i, s in enumerate(more):
+        r = res[str(i)].split(" ")
+        n += 1
+        if r[0] != "ok" or unhxb(r[2]) != s.encode("utf-8", "surrogatepass"):
+            viol.append({"site": "api-roundtrip", "detail": "Decrypt(Encrypt(x)) != x: " + res[str(i)][:80], "input": s[:100]})
+    return result(viol, n, len(strs) + len(more), "end to end: one log line whose filter holds every test string, `redact --encrypt` then `decrypt` of every emitted leaf through the real CLI (JSON escaping and base64 in between); bit flips, truncations and extensions of ciphertexts and a different key must be refused; API-level round trips; strings: lengths 0..8191, all planes, control characters, base64-/JSON-looking",
+                  dist, [{"string": strs[5]}])
+
+
+def oracle_c10(tables, seed, tier, deep):
+    big = tier == "thorough" or deep
+    n = 1200 if big else 150
+    cases = grammar_cases(seed ^ 0x10, n)
+    viol = []
+    dist = collections.Counter()
+    flagsets = [dict(), dict(n=True, b=True), dict(w=True, i=True), dict(repl="zz")]
+    trip = []
+    for i, cs in enumerate(cases):
+        fl = flagsets[i % len(flagsets)]
+        trip.append((cs, Cfg(**fl), Cfg(enc=3, **fl), Cfg(enc=2, **fl)))
+    rp = run_lines([(cs, a) for cs, a, b, c in trip])
+    re_ = run_lines([(cs, b) for cs, a, b, c in trip])
+    rb = run_lines([(cs, c) for cs, a, b, c in trip])
+    decq = []
+    seen_ct = {}
+    for k, ((cs, a, b, c), x, y, z) in enumerate(zip(trip, rp, re_, rb)):
+        tp, te, tb = out_text(x), out_text(y), out_text(z)
+        if tp is None or te is None:
+            if tp != te:
+                viol.append({"site": "lines-differ", "detail": "a line is emitted in one mode and skipped in the other", "cfg": b.s(), "input": cs.text})
+            continue
+        if tb != tp:
+            viol.append({"site": "fail-open", "detail": "with unusable key material the output is not the placeholder-mode output", "cfg": c.s(), "input": cs.text, "output": tb})
+        for tok, role in cs.roles.items():
+            if role in SENSITIVE_ROLES and tb and tok in tb:
+                viol.append({"site": "fail-open:plaintext", "detail": "sensitive %r emitted in clear when encryption cannot be performed" % tok, "cfg": c.s(), "input": cs.text, "token": tok})
+        op, oe = parse_json(tp), parse_json(te)
+        d = shape_diff(op, oe)
+        if d:
+            viol.append({"site": "shape:" + site_of(d[0]), "detail": "encrypt-mode and placeholder-mode outputs differ in shape: " + d[1], "cfg": b.s(), "input": cs.text})
+            continue
+        for (p, lp), (_, le), in zip(leaves(op), leaves(oe)):
+            li = get_path(cs.tree, p)
+            if lp == le and type(lp) == type(le):
+                dist["same"] += 1
+                continue
+            if not (isinstance(lp, str) and isinstance(le, str) and not isinstance(lp, Num)):
+                viol.append({"site": "equiv:nonstring:" + site_of(p), "detail": "non-string leaf differs between the modes: %r vs %r" % (lp, le), "cfg": b.s(), "input": cs.text})
+                continue
+            if lp == li:
+                viol.append({"site": "equiv:kept-in-plain:" + site_of(p), "detail": "leaf kept by placeholder mode (%r) but changed by encrypt mode (%r)" % (lp, le), "cfg": b.s(), "input": cs.text})
+                continue
+            dist["ciphertext"] += 1
+            decq.append((len(decq), le, li, p, cs, b))
+            if isinstance(li, str):
+                if li in seen_ct and seen_ct[li] != le:
+                    viol.append({"site": "nondeterministic", "detail": "equal plaintexts %r gave different ciphertexts across lines" % li[:60], "cfg": b.s(), "input": cs.text})
+                seen_ct[li] = le
+    inv = {}
+    for pt, ct in seen_ct.items():
+        if ct in inv and inv[ct] != pt:
+            viol.append({"site": "not-injective", "detail": "plaintexts %r and %r share a ciphertext" % (pt[:40], inv[ct][:40]), "input": pt})
+        inv[ct] = pt
+    ops = []
+    for j, le, li, p, cs, b in decq:
+        try:
+            raw = base64.b64decode(le, validate=True)
+        except Exception:
+            viol.append({"site": "equiv:notbase64:" + site_of(p), "detail": "encrypt-mode leaf %r is not base64" % le[:60], "cfg": b.s(), "input": cs.text})
+            continue
+        ops.append((str(j), ["dec", hx(HARNESS_KEY), hx(raw)]))
+    res = go_exec(ops)
+    for j, le, li, p, cs, b in decq:
+        r = res.get(str(j))
+        if r is None:
+            continue
+        if not r.startswith("ok ") or unhxb(r[3:]).decode("utf-8", "replace") != li:
+            viol.append({"site": "equiv:decrypt:" + site_of(p), "detail": "encrypt-mode leaf does not decrypt to the input leaf %r (%s)" % (str(li)[:60], r[:40]), "cfg": b.s(), "input": cs.text})
+    # separate processes: same key, same input -> same bytes
+    sample = [(cs, b) for cs, a, b, c in trip[:40]]
+    again = run_lines(sample)
+    for (cs, b), y1, y2 in zip(sample, re_[:40], again):
+        if y1 != y2:
+            viol.append({"site": "nondeterministic:process", "detail": "two separate processes produced different encrypt-mode output", "cfg": b.s(), "input": cs.text})
+    return result(viol, 3 * len(trip) + len(ops), dist["ciphertext"], "grammar lines with repeated literals under placeholder mode, encrypt mode (real AES-SIV key) and encrypt mode with unusable 10-byte key material; leaf-wise: equal, or placeholder in one and a ciphertext decrypting to the input leaf in the other; equal plaintexts <-> equal ciphertexts across lines and processes; distinct_nontrivial = ciphertext leaves decrypted and compared",
+                  dist, [{"line": trip[0][0].text[:300]}])
+
+
+ORACLES["C09"] = oracle_c09
+ORACLES["C10"] = oracle_c10
